@@ -1,6 +1,7 @@
 import BlobfinderModel.Properties.C17
 import BlobfinderModel.Properties.C06
 import BlobfinderModel.Model.Fastmatch
+import BlobfinderModel.Proofs.Rigid
 /-!
 # C05 — fast matching keeps inliers, rejects outliers and weak peaks, never raises  (partial)
 
@@ -204,6 +205,35 @@ theorem translation_invariant_indices (zero a b p t : V2) :
     getIndices (vadd zero t) a b (vadd p t) = getIndices zero a b p := by
   unfold getIndices vadd vsub
   simp only [add_sub_add_right_eq_sub]
+
+/-- **Rigid equivariance of the fast match (model level, exact arithmetic)**: for every rational
+orthogonal map `R` (rotations such as the 3-4-5 rotation, reflections) and every translation `t`,
+running the match on the moved peaks with the moved start lattice gives the moved result — the same
+selector, the same integer indices, zero point `R z + t`, lattice vectors `R a`, `R b`; an invalid
+match stays invalid.  Irrational rotation angles are covered by the oracle only. -/
+theorem rigid_equivariant (R : Lin) (hR : R.Orthogonal) (t : V2) (peaks : List Peak) (zero a b : V2)
+    (tol minWeight : ℚ) (minMatch : ℤ) :
+    fastmatch (peaks.map (Peak.move R t)) (R.move t zero) (R.app a) (R.app b) tol minWeight minMatch
+      = (fastmatch peaks zero a b tol minWeight minMatch).move R t :=
+  fastmatch_move R hR t peaks zero a b tol minWeight minMatch
+
+/-- the selection step alone is invariant (used above; also holds for the second round) -/
+theorem match_all_rigid (R : Lin) (hR : R.Orthogonal) (t : V2) (peaks : List Peak) (sel : List Bool)
+    (zero a b : V2) (tol : ℚ) :
+    matchAll (peaks.map (Peak.move R t)) sel (R.move t zero) (R.app a) (R.app b) tol
+      = matchAll peaks sel zero a b tol :=
+  matchAll_move R hR t peaks sel zero a b tol
+
+/-- non-vacuity: the 3-4-5 rotation is orthogonal, and it moves a valid match to a valid match -/
+example : (⟨3 / 5, -4 / 5, 4 / 5, 3 / 5⟩ : Lin).Orthogonal := by
+  unfold Lin.Orthogonal; norm_num
+
+example :
+    fastmatch ([⟨(0, 0), 1⟩, ⟨(10, 0), 1⟩, ⟨(0, 10), 1⟩, ⟨(10, 10), 1⟩].map (Peak.move ⟨3 / 5, -4 / 5, 4 / 5, 3 / 5⟩ (7, -2)))
+      ((⟨3 / 5, -4 / 5, 4 / 5, 3 / 5⟩ : Lin).move (7, -2) (0, 0)) ((⟨3 / 5, -4 / 5, 4 / 5, 3 / 5⟩ : Lin).app (10, 0))
+      ((⟨3 / 5, -4 / 5, 4 / 5, 3 / 5⟩ : Lin).app (0, 10)) 3 (1 / 10) 3
+    = .valid (7, -2) (6, 8) (-8, 6) [true, true, true, true] [(0, 0), (1, 0), (0, 1), (1, 1)] := by
+  decide +kernel
 
 /-- non-vacuity: four points of an exact square lattice are all matched -/
 example : fastmatch [⟨(0, 0), 1⟩, ⟨(10, 0), 1⟩, ⟨(0, 10), 1⟩, ⟨(10, 10), 1⟩] (0, 0) (10, 0) (0, 10) 3 (1 / 10) 3
